@@ -2,7 +2,7 @@
 plus the creation path of OpenOptions::open.  Shared by C02, C04, C10, C11, C16."""
 from core import R, ok, bad, unresolved, floor
 from anchors import AnchorError
-from facts import callee_of, strip_generics
+from facts import callee_of, strip_generics, last_seg, op_local
 from flow import result_switch
 
 
@@ -22,9 +22,49 @@ def _ok_starts(T, e):
     return T.succ_nodes_of_event_ok(e)
 
 
+RESULT_PRESERVING = {'map_err', 'or_else', 'into', 'from', 'map_err_into'}
+
+
+def _tail_returned(fn, bb):
+    """is the Result of the call in block bb handed back as the function's own result, only passed through error-mapping adaptors
+    (`file.sync_all().map_err(Error::Io)` as the tail expression)?  Then the function succeeds exactly when the call did."""
+    from flow import DefUse
+    t = fn.term(bb)
+    if t['k'] != 'call' or t['dest']['pr']:
+        return False
+    want = t['dest']['l']
+    du = getattr(fn, '_du_tail', None)
+    if du is None:
+        du = DefUse(None, fn)
+        fn._du_tail = du
+    l = 0
+    for _ in range(10):
+        l, path = du.trace_root(l)
+        if path:
+            return False
+        if l == want:
+            return True
+        ds = du._success_defs(l)
+        if len(ds) != 1 or ds[0][1] is not None:
+            return False
+        ct = fn.term(ds[0][0])
+        c = callee_of(ct)
+        if not c or last_seg(strip_generics(c['path'])) not in RESULT_PRESERVING or not ct['args'] or op_local(ct['args'][0]) is None:
+            return False
+        l = op_local(ct['args'][0])
+    return False
+
+
 def _S_ok_nodes(T):
-    """a sync only counts when its result is discriminated and the error arm leaves: the 'ok-edge' virtual node"""
-    return {e['ok_node'] for e in T.events('S') if 'ok_node' in e}
+    """a sync only counts when its result is discriminated and the error arm leaves (the 'ok-edge' virtual node), or when its Result is handed back
+    unchanged as the result of the enclosing function (whose caller discriminates it)"""
+    out = {e['ok_node'] for e in T.events('S') if 'ok_node' in e}
+    for e in T.events('S'):
+        if 'ok_node' not in e and not e.get('summary'):
+            n = T.nodes[e['node']]
+            if n.bb is not None and _tail_returned(n.fn, n.bb):
+                out.add(e['node'])
+    return out
 
 
 def commit_trace(ctx):
